@@ -281,12 +281,13 @@ def _mk_assignment(ncand, ntrk, nres, extra_tracks=0):
                 wv = z3.If(answers[i] == t.e, W(c, t), wv)
             mine = mine + z3.If(in_stream(c), z3.SignExt(64, wv), z3.BitVecVal(0, 128))
         options = [None] + list(range(ntrk))
+        alts = []
         for assign in itertools.product(options, repeat=ncand):
             used = [a for a in assign if a is not None]
             if len(used) != len(set(used)):
                 continue
-            vm.check(mine >= total_of(assign), "the chosen continuations have maximum total weight (unmatched counts as the threshold)",
-                     info={'alt': str(assign)})
+            alts.append(mine >= total_of(assign))
+        vm.check(z3.And(alts), "the chosen continuations have maximum total weight (unmatched counts as the threshold)")
     return q
 
 
@@ -351,7 +352,7 @@ MIR = [
        "all non-NaN f32 distance >= 0, confidences in (0,1]", [SM + "metric", "similari::utils::kalman::kalman_2d_box::Universal2DBoxKalmanFilter::calculate_cost"], spec_calls=_gate_calls, replay=_replay_gate),
     MQ("c02_postprocess", "quick", q_postprocess, "postprocess_distances drops the pairs that failed the gate", "3 results, each with/without weight", [SM + "postprocess_distances"], replay=_replay_gate),
 ]
-for (nc, nt, nr, ex, tier) in [(1, 1, 1, 0, 'quick'), (1, 2, 2, 0, 'quick'), (2, 1, 2, 0, 'quick'), (2, 2, 2, 0, 'quick'), (2, 2, 3, 0, 'quick'),
+for (nc, nt, nr, ex, tier) in [(1, 1, 1, 0, 'quick'), (1, 2, 2, 0, 'quick'), (2, 1, 2, 0, 'quick'), (2, 2, 2, 0, 'quick'), (2, 2, 2, 2, 'quick'), (2, 2, 3, 0, 'quick'),
                                (2, 2, 3, 2, 'quick'), (2, 2, 4, 0, 'thorough'), (3, 2, 3, 0, 'thorough'), (2, 3, 3, 0, 'thorough')]:
     MIR.append(MQ("c02_assign_c%d_t%d_r%d%s" % (nc, nt, nr, "_x%d" % ex if ex else ""), tier, _mk_assignment(nc, nt, nr, ex),
                   "SortVoting::winners: one answer per candidate of the stream, no track twice, maximum total weight (unmatched = threshold)",
